@@ -7,7 +7,7 @@ from vf.ob import obligation, shard
 from tartiflette import Resolver, Directive, Scalar
 
 META = {
-    "bounds": "6 decorated schemas (0..3 different tagging directives on every attachable element, the same directive twice with different arguments, and t1 t2 t1: scalar, input field, input object, argument, field, enum type, enum value, object type) x "
+    "bounds": "6 decorated schemas (0..3 different tagging directives on every attachable element, the same directive twice with different arguments, and t1 t2 t1: scalar, input field, input object, argument, field, enum type, enum value, object type — the latter reached through concrete, interface, union and list-of-interface fields) x "
               "0..2 query-side field directives x 3 ways of supplying the input (literal, whole-object variable, variable nested in the object literal); the value and the "
               "query-side directive arguments are unbounded ints",
     "outside": "interface/union type-level hooks; relative order of enum-value vs enum-type output hooks (the property writes 'enum-value/type'); more than 3 directives per element",
@@ -62,7 +62,7 @@ class S:
         return int(ast.value)
 
 
-LOCS = "SCALAR | OBJECT | INPUT_OBJECT | INPUT_FIELD_DEFINITION | ARGUMENT_DEFINITION | FIELD_DEFINITION | FIELD | ENUM | ENUM_VALUE"
+LOCS = "INTERFACE | UNION | SCALAR | OBJECT | INPUT_OBJECT | INPUT_FIELD_DEFINITION | ARGUMENT_DEFINITION | FIELD_DEFINITION | FIELD | ENUM | ENUM_VALUE"
 NAMES = ["t1", "t2", "t3"]
 # tags per element and position (two digits: element, position)
 TAGS = {"S": [11, 12, 13], "x": [21, 22, 23], "I": [31, 32, 33], "arg": [41, 42, 43], "f": [51, 52, 53], "E": [61, 62, 63], "RED": [71, 72, 73], "O": [81, 82, 83], "earg": [91, 92, 93]}
@@ -83,8 +83,11 @@ def sdl(k):
 scalar S %s
 enum Color %s { RED %s GREEN }
 input I %s { x: S %s }
-type O %s { n: S }
-type Query { f(i: I %s): S %s  e(c: Color %s): Color  o: O }
+interface IO { n: S }
+type O implements IO %s { n: S }
+type P implements IO { n: S }
+union UO = O | P
+type Query { f(i: I %s): S %s  e(c: Color %s): Color  o: O  io: IO  uo: UO  ios: [IO] }
 """ % (dirs("S", k), dirs("E", k), dirs("RED", k), dirs("I", k), dirs("x", k), dirs("O", k), dirs("arg", k), dirs("f", k), dirs("earg", k))
 
 
@@ -108,6 +111,15 @@ for _k in range(6):
     @Resolver("Query.o", schema_name=_name)
     async def _ro(parent, args, ctx, info):
         return {"n": 5}
+
+    for _abs in ("io", "uo"):
+        @Resolver("Query." + _abs, schema_name=_name)
+        async def _rabs(parent, args, ctx, info):
+            return {"n": 5, "_typename": "O"}
+
+    @Resolver("Query.ios", schema_name=_name)
+    async def _rios(parent, args, ctx, info):
+        return [{"n": 5, "_typename": "O"}, {"n": 6, "_typename": "P"}, {"n": 7, "_typename": "O"}]
     ENGS[_k] = build(sdl(_k), _name, query_cache_decorator=None)
 
 QDIRS = ["", "@q1(n: $n1)", "@q1(n: $n1) @q2(n: $n2)", "@q2(n: $n2) @q1(n: $n1)"]
@@ -270,16 +282,30 @@ def c13_enum_object(which: int, lit: bool) -> bool:
             if sub != TAGS[el][:n]:
                 return verdict(False)
         return verdict(True)
-    ok, r = safe(lambda: env.run(ENGS[k].execute("{ o { n } }")))
-    log = list(LOG)
-    observe(r, log)
-    if not ok or r.get("errors"):
-        return verdict(False)
-    outs = [(e[1], e[2]) for e in log if e[0] == "out>"]
-    exp = [(NM[j], TAGS["O"][j]) for j in range(n)] + [(NM[j], TAGS["S"][j]) for j in range(n)]
-    val = 5
-    for t in reversed(TAGS["O"][:n]):
-        val = ap(val, t)          # the object-level hook sees (and here rewrites) the whole object value
-    for t in reversed(TAGS["S"][:n]):
-        val = ap(val, t)
-    return verdict(outs == exp and r["data"] == {"o": {"n": val}})
+    def through(v, with_o):
+        if with_o:
+            for t in reversed(TAGS["O"][:n]):
+                v = ap(v, t)          # the object-level hook sees (and here rewrites) the whole object value
+        for t in reversed(TAGS["S"][:n]):
+            v = ap(v, t)
+        return v
+    o_hooks = [(NM[j], TAGS["O"][j]) for j in range(n)]
+    s_hooks = [(NM[j], TAGS["S"][j]) for j in range(n)]
+    # the same object type reached through a concrete field, an interface field, a union field and a list of the interface:
+    # its type-level output hooks run exactly once per value in every case
+    for q, expd, exph in (("{ o { n } }", {"o": {"n": through(5, True)}}, o_hooks + s_hooks),
+                          ("{ io { n } }", {"io": {"n": through(5, True)}}, o_hooks + s_hooks),
+                          ("{ uo { ... on O { n } } }", {"uo": {"n": through(5, True)}}, o_hooks + s_hooks),
+                          ("{ ios { n } }", {"ios": [{"n": through(5, True)}, {"n": through(6, False)}, {"n": through(7, True)}]}, None)):
+        del LOG[:]
+        ok, r = safe(lambda: env.run(ENGS[k].execute(q)))
+        log = list(LOG)
+        observe(q, r, log)
+        if not ok or r.get("errors") or r["data"] != expd:
+            return verdict(False)
+        outs = [(e[1], e[2]) for e in log if e[0] == "out>"]
+        if exph is not None and outs != exph:
+            return verdict(False)
+        if exph is None and sorted(outs) != sorted(o_hooks * 2 + s_hooks * 3):
+            return verdict(False)
+    return verdict(True)
